@@ -58,6 +58,7 @@ func addUltBuff(mod *modifier.Instance, e event.ActionStart) {
 		mod.Engine().AddModifier(mod.Owner(), info.Modifier{
 			Name:   ultBuff,
 			Source: mod.Owner(),
+			State:  mod.State(),
 		})
 	}
 }
